@@ -307,7 +307,8 @@ def c14(tier, seed):
     # (only meaningful on an accepted trace: rejected events are reported as they are)
     fam = meta.get("by_family", {})
     if v["ok"] and not (meta.get("pd_secant", 0) > 0 and meta.get("pd_fallback", 0) > 0 and fam.get("lattice_membership", 0) > 0
-            and all(fam.get(f"{c}:{k}", 0) > 0 for c in ("Exp", "Pow", "GenPow") for k in ("calculus", "membership", "central", "near_boundary", "near_boundary_dual"))):
+            and all(fam.get(f"{c}:{k}", 0) > 0 for c in ("Exp", "Pow", "GenPow") for k in ("calculus", "membership", "central", "near_boundary", "near_boundary_dual", "exact_boundary"))
+            and fam.get("Pow:zero_tail", 0) > 0 and fam.get("GenPow:zero_tail", 0) > 0):
         raise ToolError(f"C14 recorder did not exercise every family: {meta}")
     res.coverage = {"states": nw["states"], "transitions": nw["transitions"], "evaluations": v["events"], "distinct_nontrivial": v["events"],
                     "rule": "one evaluation = (a) one nonsymmetric cone (exponential; power with alpha in [0.08, 0.93]; generalised power with 2-3 exponents and 1-3 tail entries) at a generated "
@@ -315,7 +316,8 @@ def c14(tier, seed):
                             "differences of the cone's own lower-order quantity, logarithmic homogeneity, primal gradient as derivative of barrier_primal and as conjugate map, primal-dual "
                             "scaling symmetric positive definite with secant equations or the mu*H fallback, central starting point with mu = 1), each an <<error, tolerance>> pair decided "
                             "by TLC; (b) one arbitrary real point against the observer's cone definitions; (c) one integer lattice point of a power / generalised power cone with rational "
-                            "exponents, membership in K and K* decided by TLC in exact integer arithmetic",
+                            "exponents, membership in K and K* decided by TLC in exact integer arithmetic; (d) one point that lies on the boundary of K or K* exactly in floating point: the interior test must reject it. "
+                            "Every evaluation meets dirty work buffers (the hook evaluates the primal barrier elsewhere first); a zero_tail family sets the last block of s to exactly 0",
                     "by_family": fam, "pd_secant": meta.get("pd_secant"), "pd_fallback": meta.get("pd_fallback"),
                     "samples": [{k: e.get(k) for k in ("ev", "cone", "pd_mode", "interior_accepted", "p", "q", "vi")} for e in sample(read_ndjson(tr), 3)], "exhaustive": False,
                     "trusted_base": ["TLC", "FloatOrd", "observer central differences, Cholesky and cone margins", "hook nonsym_cone_battery"]}
